@@ -145,5 +145,6 @@ var SelftestReverts = map[string][]string{
 	"C50": {"revert_F3.diff"},
 	"C10": {"revert_F4.diff"},
 	"C33": {"revert_F5.diff"},
+	"C15": {"revert_F10.diff"},
 	"C56": {"revert_F6.diff", "revert_F7.diff", "revert_F8.diff", "revert_F9.diff"},
 }
